@@ -294,6 +294,90 @@ def c01_cli_gen(seed, run, tier):
             "twin": rng.randrange(len(files)), "cases": [{"kind": "cmd", "argv": a} for a in cmds], "pinned": True, "pin_seed": 777}
 
 
+BOTH_METRICS = ["mae", "bias", "rmse", "corr", "stderror", "cmae", "dmb", "mbias", "ef", "rmsf", "nsec", "rankcorr",
+                "derror", "kge", "leps"]
+
+
+def _rescale_fcst(world):
+    # forecasts in the range of the observations and thresholds (the tag scheme keeps them ~1000 apart,
+    # which would make every contingency table trivial)
+    for k, party in enumerate(W.parties(world)):
+        g = party["fields"].get("fcst")
+        if g is not None:
+            for plane in g:
+                for row in plane:
+                    for j, v in enumerate(row):
+                        if v is not None and v == v and abs(v) != float("inf"):
+                            row[j] = float((int(v) * 7 + k * 13) % 300)
+
+
+def c01_knock_gen(seed, run, tier):
+    """Case deletion at the command line: world W1 = one file lacks one quantity the score uses at a few
+    cases; world W2 = those cases are missing from every file altogether.  C01 says such a case contributes
+    to no file's score, so the tables of the same commands must be identical - every column."""
+    parts = (seed, "C01knock", run)
+    prof = dict(gen_cli.PROFILE_CLI, n_inputs=(2, 4), p_no_id=0.0, p_x0=0.0, p_q=0.6, p_thr=0.5, p_has_obs=0.8, p_inf=0.0)
+    world = W.generate(prng.stream(*parts, "world"), prof)
+    rng = prng.stream(*parts, "ops")
+    _rescale_fcst(world)
+    files = [p["name"] for p in world["inputs"]]
+    common = set.intersection(*[set(p["fields"]) for p in world["inputs"]])
+    qs = sorted(W.field_kind(n)[1] for n in common if W.field_kind(n)[0] == "q")
+    ts = sorted(W.field_kind(n)[1] for n in common if W.field_kind(n)[0] == "thr")
+    fams = ["det", "det", "thr"]
+    if len(qs) >= 2 and "fcst" in common:
+        fams += ["ssr", "ssr", "ssr"]
+    if qs:
+        fams += ["qs"]
+    if ts:
+        fams += ["bs"]
+    fam = rng.choice(fams)
+    cmds = []
+    for _ in range(rng.randint(2, 4)):
+        cmd = gen_cli.gen_command(rng, world, allow_f=False)
+        groups = [g for g in cmd["groups"] if not g[0].startswith("--list") and g[0] not in (
+            "-hist", "-sort", "-leg", "-type", "-f", "-obs", "-fcst", "-m", "-r", "-q", "-b", "-T", "-Tagg", "-Tx")]
+        if fam == "det":
+            groups.append(["-m", rng.choice(BOTH_METRICS)])
+            uses = ["obs", "fcst"]
+        elif fam == "thr":
+            groups += [["-m", rng.choice(["far", "ets", "threat", "hit", "pc", "biasfreq"])],
+                       ["-r", ",".join(str(v) for v in sorted(rng.sample(range(1, 260), rng.randint(1, 3))))]]
+            uses = ["obs", "fcst"]
+        elif fam == "ssr":
+            a, b = sorted(rng.sample(qs, 2))
+            m = rng.choice(["spreadskillratio", "spreadskillratio", "spread"])
+            groups += [["-m", m], ["-q", "%s,%s" % (W._fmt_num(a), W._fmt_num(b))]]
+            uses = ["q%g" % a, "q%g" % b] + (["obs", "fcst"] if m == "spreadskillratio" else [])
+        elif fam == "qs":
+            q = rng.choice(qs)
+            groups += [["-m", rng.choice(["quantilescore", "quantilecoverage"])], ["-q", W._fmt_num(q)]]
+            uses = ["obs", "q%g" % q]
+        else:
+            t = rng.choice(ts)
+            groups += [["-m", rng.choice(["bs", "bss", "bsrel", "bsres"])], ["-r", W._fmt_num(t)]]
+            uses = ["obs", "p%g" % t]
+        groups.append(["-type", rng.choice(["csv", "csv", "text"])])
+        cmds.append({"argv": files + [t_ for g in groups for t_ in g], "uses": uses})
+    shared = set(cmds[0]["uses"])
+    for c in cmds:
+        shared &= set(c["uses"])
+    victim = rng.randrange(len(files))
+    cand = sorted(f for f in shared if f in world["inputs"][victim]["fields"])
+    field = rng.choice(cand) if cand else None
+    cases = []
+    if field is not None:
+        party = world["inputs"][victim]
+        g = party["fields"][field]
+        have = [(party["times"][i], party["leadtimes"][j], party["locations"][s_])
+                for i in range(len(g)) for j in range(len(g[0])) for s_ in range(len(g[0][0])) if g[i][j][s_] is not None]
+        if len(have) >= 3:
+            cases = rng.sample(have, rng.randint(1, max(1, len(have) // 4)))
+    return {"prop": "C01", "engine": "B", "kind": "cli_knock", "seed": seed, "run": run, "tier": tier, "world": world,
+            "twin": victim, "field": field, "knock": [list(c) for c in cases],
+            "cases": [{"kind": "cmd", "argv": c["argv"]} for c in cmds], "pinned": True, "pin_seed": 777}
+
+
 def _table(out, n_files):
     """Parse a csv/text table printed by verif: list of rows of cells, warnings removed."""
     rows = []
@@ -310,6 +394,11 @@ def _table(out, n_files):
 def c01_cli_execute(spec, workdir):
     import os
     victim = spec["twin"]
+    if spec.get("kind") == "cli_knock":
+        cases = [tuple(c) for c in spec.get("knock") or []]
+        wa = W.knockout(spec["world"], cases, victim, spec.get("field"))
+        wb = W.knockout(spec["world"], cases)
+        return _c01_cli_compare(spec, workdir, wa, wb, None, "cli_case_deletion")
     cfg = {}
     w2 = W.twin(spec["world"], victim)
     # the victim's forecasts stay in the range of the thresholds but take other values
@@ -324,10 +413,17 @@ def c01_cli_execute(spec, workdir):
                 for j, v in enumerate(row):
                     if v is not None and v == v and abs(v) != float("inf"):
                         row[j] = float((int(v) * 3 + 50) % 300)
+    return _c01_cli_compare(spec, workdir, spec["world"], w2, victim, "cli_isolation")
+
+
+def _c01_cli_compare(spec, workdir, wa, wb, victim, vkind):
+    """Run the session's commands on world `wa` and on world `wb`; the tables must agree in every column
+    (except the victim's, when one is given)."""
+    import os
     n_files = len(spec["world"]["inputs"])
     outs = []
     stats = {}
-    for tag, world in (("a", spec["world"]), ("b", w2)):
+    for tag, world in (("a", wa), ("b", wb)):
         sim = engine_cli.CliSim(dict(spec, world=world, cases=[]), os.path.join(workdir, tag))
         sim.cases = []
         collected = []
@@ -345,11 +441,15 @@ def c01_cli_execute(spec, workdir):
     violation = None
     compared = 0
     for step, (case, oa, ob) in enumerate(zip(spec["cases"], outs[0], outs[1])):
+        if vkind == "cli_case_deletion" and oa["status"] != ob["status"] and (oa["ok"] or ob["ok"]):
+            violation = {"step": step, "kind": vkind, "detail": {"sub": "status", "argv": case["argv"], "victim": spec["twin"],
+                                                               "field": spec.get("field"), "a": oa["status"], "b": ob["status"]}}
+            break
         if not (oa["ok"] and ob["ok"]) or "-obs" in case["argv"]:
             continue
         ta, tb = _table(oa["stdout"], n_files), _table(ob["stdout"], n_files)
         if len(ta) != len(tb) or any(len(x) != len(y) for x, y in zip(ta, tb)):
-            violation = {"step": step, "kind": "cli_isolation", "detail": {"sub": "shape", "argv": case["argv"], "victim": victim,
+            violation = {"step": step, "kind": vkind, "detail": {"sub": "shape", "argv": case["argv"], "victim": victim,
                                                                            "a": oa["stdout"][:400], "b": ob["stdout"][:400]}}
             break
         files_in_cmd = [t for t in case["argv"] if t in [p["name"] for p in spec["world"]["inputs"]]]
@@ -360,7 +460,7 @@ def c01_cli_execute(spec, workdir):
                 continue
             for j in range(len(ra)):
                 col_file = j - (len(ra) - nf)
-                if col_file >= 0 and files_in_cmd[col_file] == spec["world"]["inputs"][victim]["name"]:
+                if victim is not None and col_file >= 0 and files_in_cmd[col_file] == spec["world"]["inputs"][victim]["name"]:
                     continue
                 if ra[j] != rb[j]:
                     bad = (ra, rb, j)
@@ -369,20 +469,23 @@ def c01_cli_execute(spec, workdir):
                 break
         compared += 1
         if bad:
-            violation = {"step": step, "kind": "cli_isolation", "detail": {"sub": "value", "argv": case["argv"], "victim": victim,
-                                                                           "row_a": bad[0], "row_b": bad[1], "column": bad[2]}}
+            violation = {"step": step, "kind": vkind, "detail": {"sub": "value", "argv": case["argv"], "victim": spec["twin"],
+                                                               "field": spec.get("field"), "knock": spec.get("knock"),
+                                                               "row_a": bad[0], "row_b": bad[1], "column": bad[2]}}
             break
-    stats["probe:cli_twin_tables_compared"] = compared
+    stats["probe:cli_twin_tables_compared" if vkind == "cli_isolation" else "probe:cli_case_deletion_tables_compared"] = compared
     if violation is not None:
-        violation["signature"] = "cli_isolation sub=%s metric=%s" % (violation["detail"]["sub"], engine_cli.metric_of(violation["detail"]["argv"]))
+        violation["signature"] = "%s sub=%s metric=%s" % (vkind, violation["detail"]["sub"], engine_cli.metric_of(violation["detail"]["argv"]))
     h = hashlib.sha256(json.dumps([[o["status"], o["stdout"]] for col in outs for o in col]).encode()).hexdigest()[:20]
     return {"violation": violation, "digest": h, "stats": stats, "fired": {}, "states": [], "log": [], "steps": 2 * len(spec["cases"]),
-            "mode": "cli-twin", "ilv": _cli_ilv(spec), "nontrivial": compared >= 1}
+            "mode": "cli-twin" if vkind == "cli_isolation" else "cli-case-deletion", "ilv": _cli_ilv(spec), "nontrivial": compared >= 1}
 
 
 def c01_gen(seed, run, tier):
     if run % 10 == 9:
         return c01_cli_gen(seed, run, tier)
+    if run % 10 == 4:
+        return c01_knock_gen(seed, run, tier)
     spec = gen_data.gen_spec("C01", seed, run, tier, PROFILE_C01)
     trng = prng.stream(seed, "C01", run, "twin")
     n = len(spec["world"]["inputs"])
@@ -396,7 +499,7 @@ def c01_gen(seed, run, tier):
 
 
 def c01_execute(spec, workdir):
-    if spec.get("kind") == "cli_twin":
+    if spec.get("kind") in ("cli_twin", "cli_knock"):
         return c01_cli_execute(spec, workdir)
     oracle = oracle_c01.C01Oracle()
     sim = engine_data.DataSim(spec, workdir + "/a", oracles=[oracle], want_ref=False)
@@ -738,7 +841,8 @@ PROPS = {
                     "distinct = distinct run digests among non-trivial runs"},
     "C01": {"gen": c01_gen, "execute": c01_execute, "engine": "A",
             "runs": {"quick": 4000, "thorough": 120000},
-            "expected_probes": ["probe:sibling_pairs", "probe:decoded_responses", "probe:twin_compared", "probe:cli_twin_tables_compared"],
+            "expected_probes": ["probe:sibling_pairs", "probe:decoded_responses", "probe:twin_compared", "probe:cli_twin_tables_compared",
+                                "probe:cli_case_deletion_tables_compared"],
             "rule": "one evaluation = one seeded simulated session on a world with >= 2 parties (2-4 inputs, optional "
                     "climatology, differing coverage and missingness, inputs without obs): interleaved client scripts "
                     "issuing sibling requests (same fields/axis/slice for every input) with other clients, failing "
